@@ -49,7 +49,7 @@ def restore_simulation(directory, tax_benefit_system, **kwargs):
         if not population.entity.is_person:
             continue
         _restore_entity(population, entities_dump_dir)
-        population.count = person_count
+        population.count = len(population.ids)
 
     variables_to_restore = (
         variable for variable in os.listdir(directory) if variable != "__entities__"
